@@ -144,12 +144,12 @@ def run(out):
     base = dict(MaxDepth=3, Fillers={" ", "/* {;:} */", "NL", "C2", "C4", "CRLF"}, Loose=True, SemiInParens=False, NoSemi=False)
     cin4 = ('css-4', dict(constants=dict(base, MaxSeg=4, SelIdx={1, 2}, ValIdx={1, 2, 4}, NameIdx={1}, Fillers={" ", "C2", "CRLF"})))
     cin = [('css-exhaustive', dict(constants=dict(base, MaxSeg=3, SelIdx={1, 2, 3, 5}, ValIdx={1, 2, 3, 4}, NameIdx={1, 2}))),
-           ('css-all-shapes', dict(constants=dict(base, MaxSeg=2 if quick else 3, SelIdx={1, 2, 3, 4, 5, 6, 7, 8}, ValIdx={1, 2, 3, 4, 5, 6, 7, 8, 9, 10, 11, 12}, NameIdx={1, 2, 3, 4}))),
+           ('css-all-shapes', dict(constants=dict(base, MaxSeg=2 if quick else 3, SelIdx=set(range(1, 12)), ValIdx=set(range(1, 15)), NameIdx={1, 2, 3, 4, 5}))),
            ('css-nesting', dict(constants=dict(base, MaxSeg=5 if quick else 6, SelIdx={1, 2}, ValIdx={4}, NameIdx={1}, Fillers={" "}, Loose=False))),
            ('css-deep-nesting', dict(constants=dict(base, MaxSeg=8 if quick else 9, SelIdx={1}, ValIdx={1}, NameIdx={1}, Fillers=set(), Loose=False, NoSemi=True))),
            ('css-no-semicolon', dict(constants=dict(base, MaxSeg=4 if quick else 5, SelIdx={1, 2}, ValIdx={1, 4}, NameIdx={1}, Fillers={" "}, Loose=False, NoSemi=True))),
            ('css-semicolon-in-parentheses', dict(constants=dict(base, MaxSeg=3, SelIdx={1}, ValIdx={1}, NameIdx={1}, Fillers={" "}, Loose=False, SemiInParens=True))),
-           ('css-simulated', dict(constants=dict(base, MaxSeg=12 if quick else 20, MaxDepth=4, SelIdx={1, 2, 3, 4, 5, 6, 7, 8}, ValIdx={1, 2, 3, 4, 5, 6, 7, 8, 9, 10, 11, 12}, NameIdx={1, 2, 3, 4}),
+           ('css-simulated', dict(constants=dict(base, MaxSeg=12 if quick else 20, MaxDepth=4, SelIdx=set(range(1, 12)), ValIdx=set(range(1, 15)), NameIdx={1, 2, 3, 4, 5}),
                                   simulate=3 if quick else 60, depth=13 if quick else 21, seed=out.seed))]
     nontrivial = 0
     if not quick:
